@@ -44,6 +44,10 @@ int main(int argc, char** argv)
    Solver s(Solver::LEAVE, rep > 0 ? Solver::COLUMN : Solver::ROW);
    std::shared_ptr<Tolerances> tol = std::make_shared<Tolerances>();
    SPxLPBase<double> lp;
+   SPxOut out;                      /* a bare SPxSolverBase does not initialise its spxout pointer */
+   out.setVerbosity(SPxOut::ERROR);
+   lp.setOutstream(out);
+   s.setOutstream(out);
    lp.setTolerances(tol);
    s.setTolerances(tol);
    DSVectorBase<double> empty;
